@@ -81,7 +81,7 @@ class Check(object):
         self.exhaustive = False
         self.logged = {}
         self.mc_runs = []
-        self.max_viol_print = 20
+        self.max_viol_print = 4
         self._classes_written = set()
         d = os.path.join(VERIF, 'out', 'replay')
         if os.path.isdir(d):
